@@ -232,7 +232,10 @@ def base_conversations(rng):
     for kind in B.CANARY_KINDS:
         out.append(B.canary_conv(rng, kind, 'k', 0))
     for kind in ['refused', 'gaierror', 'timeout', 'garbage', 'badutf8', 'huge_header', 'bad_chunk', 'connect_refused', 'two_origins',
-                 'client_pipe', 'client_oserror', 'upstream_send_err', 'nul_host']:
+                 'client_pipe', 'client_oserror', 'upstream_send_err', 'nul_host',
+                 # endings AFTER the upstream socket exists: refused by a plugin / a plugin raising / irregular teardowns
+                 'plugin_rejects_after_connect', 'plugin_raises_after_connect', 'pending_output_teardown',
+                 'lingering_after_upstream_close', 'reverse_short_writes']:
         c = B.adversarial_conv(rng, kind, 'k', 0)
         out.append(c)
     # web server role with non-UTF-8 attributes through the reverse route (fixed defect ff290f1)
@@ -286,6 +289,12 @@ def gen_histories(rng, n, thorough=False):
     for conv, k, ab in grid:
         c = cut_conversation(rng, conv, k, ab)
         cases.append(dict(kind='history', conv=c, role=conv.get('role')))
+    # endings after the upstream was connected: always part of the run, every abort kind
+    for kind in ('plugin_rejects_after_connect', 'plugin_raises_after_connect'):
+        for ab in ABORTS:
+            conv = B.adversarial_conv(rng, kind, 'k', 0)
+            conv['client'] = [x for x in conv['client'] if isinstance(x, bytes)][:1]
+            cases.append(dict(kind='history', conv=cut_conversation(rng, conv, 2, ab), role=conv.get('role')))
     # the known finding: later requests through the reverse proxy
     r = b'GET /rev/a HTTP/1.1\r\nHost: localhost\r\n\r\n'
     for nreq in (2, 3):
